@@ -67,7 +67,9 @@ RE_IDENT = re.compile(r"[a-zA-Z_][a-zA-Z0-9_]*")
 
 class Gen:
     def __init__(self, r: Any, *, partials: list[str], allow_comments: bool = True,
-                 self_name: str = "") -> None:
+                 self_name: str = "", tablerow: bool = False, shorthand: bool = False) -> None:
+        self.tablerow = tablerow        # liquid2.shopify.Environment
+        self.shorthand = shorthand      # Environment.shorthand_indexes
         # names a `with`/`for` binding without alias may give this template or its partials
         self.stems = stems(partials + ([self_name] if self_name else []))
         self.in_tstr = 0
@@ -95,7 +97,9 @@ class Gen:
         s = root or self.name()
         for _ in range(r.choice([0, 0, 0, 1, 1, 2])):
             k = r.random()
-            if k < 0.5:
+            if self.shorthand and r.random() < 0.4:
+                s += "." + r.choice(["0", "1", "10"])
+            elif k < 0.5:
                 s += "." + r.choice(KEYS)
             elif k < 0.65:
                 s += f"[{r.choice([0, 1, -1])}]"
@@ -298,6 +302,11 @@ class Gen:
             items = ", ".join(self.primitive(0) for _ in range(r.randint(1, 3)))
             grp = r.choice(["", "", "g: ", "'h': "])
             return ("t", "cycle", grp + items)
+        if k < 0.31 and not liquid and self.allow_comments:
+            # markup directly after a comment (token offsets)
+            nxt = r.choice([("t", "echo", self.filtered(0)), ("out", self.path(1)), ("raw", "r"),
+                            ("t", "assign", f"{r.choice(LOCALS)} = {self.path(0)}"), ("t", "increment", "n")])
+            return ("seq", [("cmt", r.choice([0, 1, 2]), r.choice(["c", " c ", ""])), nxt])
         if k < 0.33 and self.partials:
             return self.repeated_partial(liquid)
         if k < 0.42:
@@ -329,9 +338,14 @@ class Gen:
             if r.random() < 0.6:
                 clauses.append(("else", "", nb()))
             return ("b", "case", self.primitive(0), None, clauses)
-        if k < 0.80:
+        if k < (0.73 if self.tablerow else 0.80):
             clauses = [("else", "", nb())] if r.random() < 0.4 else []
             return ("b", "for", self.loop(), nb(), clauses)
+        if k < 0.80 + (0.03 if self.tablerow else 0):
+            e = self.loop().replace(" offset: continue", "")
+            if r.random() < 0.7 and "," not in e:
+                e += f" cols: {r.choice(['2', self.path(0), self.path(1)])}"
+            return ("b", "tablerow", e, nb(), [])
         if k < 0.85:
             return ("b", "capture", r.choice(LOCALS), nb(), [])
         if k < 0.91:
@@ -418,20 +432,50 @@ def show_lines(nodes: list[tuple], ind: int) -> list[str]:
 
 
 def gen_program(r: Any, *, depth: int, size: int, cyclic: bool = False, comments: bool = True) -> dict[str, str]:
-    """Return {template name: source}; 'main' is the entry point."""
+    """Return {loader key: source} (+ '__root__', '__env__' entries, see split_opts)."""
+    k = r.random()
+    env_kind = "shopify" if k < 0.15 else "shorthand" if k < 0.27 else "default"
+    progs = _gen_program(r, depth=depth, size=size, cyclic=cyclic, comments=comments,
+                         flags={"tablerow": env_kind == "shopify", "shorthand": env_kind == "shorthand"})
+    if env_kind != "default":
+        progs["__env__"] = env_kind
+    if "base" not in progs and not cyclic and r.random() < 0.2:
+        # a root loaded by a hierarchical name, next to a different template whose name is
+        # the root's base name, which the root includes or renders
+        g = Gen(r, partials=[], allow_comments=comments)
+        other = show(g.nodes(0, r.randint(1, 2)) + [("t", "assign", f"{r.choice(LOCALS)} = {g.filtered(0)}")], r)
+        root = r.choice(["layouts/main", "a/b/main"])
+        tag = r.choice(["include", "render"])
+        body = progs.pop("main")
+        pos = r.choice([0, len(body)])
+        progs[root] = body[:pos] + "{% " + tag + " 'main' %}" + body[pos:]
+        progs["main"] = other
+        progs["__root__"] = root
+    if not cyclic and r.random() < 0.2:
+        # a loader that uses the `tag=` keyword: some partials exist for one tag only
+        text = "".join(v for k_, v in progs.items() if not k_.startswith("__"))
+        for name in [k_ for k_ in progs if not k_.startswith("__") and k_ != progs.get("__root__", "main")]:
+            users = {t for t in TAGS_WITH_LOADER_KW
+                     if re.search(r"\b" + t + r"\s+['\"]?" + re.escape(name) + r"['\"]?[\s,%-]", text)}
+            if len(users) == 1 and r.random() < 0.8:
+                progs[next(iter(users)) + "/" + name] = progs.pop(name)
+    return progs
+
+
+def _gen_program(r: Any, *, depth: int, size: int, cyclic: bool, comments: bool, flags: dict[str, bool]) -> dict[str, str]:
     progs: dict[str, str] = {}
     npart = r.choice([0, 1, 2, 3, 3])
     names = r.sample(PARTIALS, npart)
     # partial i may refer to partials j > i only (no runtime recursion) unless cyclic
     for i in reversed(range(npart)):
-        g = Gen(r, partials=names if cyclic else names[i + 1:], allow_comments=comments, self_name=names[i])
+        g = Gen(r, partials=names if cyclic else names[i + 1:], allow_comments=comments, self_name=names[i], **flags)
         progs[names[i]] = show(g.nodes(max(depth - 1, 0), r.randint(0, max(1, size // 2))), r)
     inherit = r.random() < 0.35
-    g = Gen(r, partials=names, allow_comments=comments)
+    g = Gen(r, partials=names, allow_comments=comments, **flags)
     if inherit:
         chain = r.choice([["base"], ["mid", "base"]])
         used = r.sample(BLOCKS, r.randint(1, 2))
-        gb = Gen(r, partials=names, allow_comments=comments)
+        gb = Gen(r, partials=names, allow_comments=comments, **flags)
         base_nodes = gb.nodes(depth, r.randint(0, 2))
         for bn in used:
             base_nodes.insert(r.randint(0, len(base_nodes)), gb.block(bn, depth - 1, sup=False))
@@ -439,7 +483,7 @@ def gen_program(r: Any, *, depth: int, size: int, cyclic: bool = False, comments
             base_nodes.append(gb.block("b9", 0, sup=False))
         progs["base"] = show(base_nodes, r)
         if "mid" in chain:
-            gm = Gen(r, partials=names, allow_comments=comments)
+            gm = Gen(r, partials=names, allow_comments=comments, **flags)
             mid_nodes: list[tuple] = [("t", "extends", r.choice(["'base'", '"base"', "base"]))]
             for bn in r.sample(used, r.randint(0, len(used))):
                 mid_nodes.append(gm.block(bn, depth - 1, sup=r.random() < 0.5))
@@ -649,6 +693,8 @@ def reify_node(n: Any, owner: dict[int, Any], tname: str) -> tuple:
         return ("NBlock", tk, str(n.name), bool(n.required), R(n.block))
     if c is liquid_tag.LiquidNode:
         return ("NLiquid", tk, R(n.block))
+    if c.__name__ == "TablerowNode" and c.__module__ == "liquid2.shopify.tags.tablerow_tag":
+        return ("NTablerow", tk, reify_expr(n.expression), R(n.block))
     if c is A.BlockNode:
         return ("WBlock", tk, [R(x) for x in n.nodes])
     if c is A.ConditionalBlockNode:
@@ -696,33 +742,77 @@ class RecordingFilter:
         return getattr(self.__dict__["_func"], item)
 
 
-class Engine:
-    """One environment for a program, with every observation hook installed."""
+TAGS_WITH_LOADER_KW = ("include", "render", "extends")
 
-    def __init__(self, templates: dict[str, str]) -> None:
+
+def split_opts(progs: dict[str, str]) -> tuple[dict[str, str], str, str]:
+    """A program is {loader key: source} plus the optional entries '__root__' (name the
+    entry template is loaded by, default 'main') and '__env__' (environment kind)."""
+    t = {k: v for k, v in progs.items() if not k.startswith("__")}
+    return t, progs.get("__root__", "main"), progs.get("__env__", "default")
+
+
+def bare_name(key: str) -> str:
+    """'include/p' -> 'p' (templates a tag-aware loader serves to one tag only, from a
+    directory of their own)."""
+    for t in TAGS_WITH_LOADER_KW:
+        if key.startswith(t + "/"):
+            return key[len(t) + 1:]
+    return key
+
+
+class Engine:
+    """One environment for a program, with every observation hook installed.
+
+    templates: loader key -> source. A key 'include/p' / 'render/p' is served (by a
+    loader that uses the documented `tag=` keyword of get_source) to that tag only,
+    under the name 'p'. root: the name the entry template is loaded by.
+    env_kind: 'default' | 'shopify' (tablerow) | 'shorthand' (shorthand_indexes)."""
+
+    def __init__(self, templates: dict[str, str], *, root: str = "main", env_kind: str = "default") -> None:
         from liquid2 import DictLoader, Environment
 
         class MemoLoader(DictLoader):
-            """DictLoader that parses every template once, so that the node
-            objects seen by the render trace are the ones that were reified."""
+            """DictLoader that parses every template once, so that the node objects seen
+            by the render trace are the ones that were reified; resolves `tag=`."""
 
             def __init__(self, t: dict[str, str]) -> None:
                 super().__init__(t)
                 self.memo: dict[str, Any] = {}
 
+            def resolve(self, name: str, tag: Any) -> str:
+                if tag and f"{tag}/{name}" in self.templates:
+                    return f"{tag}/{name}"
+                return name
+
+            def get_source(self, env: Any, template_name: str, *, context: Any = None, **kw: Any) -> Any:
+                return super().get_source(env, self.resolve(template_name, kw.get("tag")), context=context, **kw)
+
             def load(self, env: Any, name: str, **kw: Any) -> Any:
-                if name not in self.memo:
-                    self.memo[name] = super().load(env, name, **kw)
-                return self.memo[name]
+                key = self.resolve(name, kw.get("tag"))
+                if key not in self.memo:
+                    self.memo[key] = super().load(env, name, **kw)
+                return self.memo[key]
 
             async def load_async(self, env: Any, name: str, **kw: Any) -> Any:
-                if name not in self.memo:
-                    self.memo[name] = await super().load_async(env, name, **kw)
-                return self.memo[name]
+                key = self.resolve(name, kw.get("tag"))
+                if key not in self.memo:
+                    self.memo[key] = await super().load_async(env, name, **kw)
+                return self.memo[key]
 
+        if env_kind == "shopify":
+            from liquid2.shopify import Environment as Env
+        elif env_kind == "shorthand":
+            class Env(Environment):  # type: ignore[no-redef]
+                shorthand_indexes = True
+        else:
+            Env = Environment  # type: ignore[misc]
         self.templates = templates
+        self.root = root
+        self.env_kind = env_kind
+        self.sources = {bare_name(k): v for k, v in templates.items()}
         self.sink: list[list] = [[]]
-        self.env = Environment(loader=MemoLoader(templates))
+        self.env = Env(loader=MemoLoader(templates))
         for name in list(self.env.filters):
             self.env.filters[name] = RecordingFilter(name, self.env.filters[name], self.sink)
         self.owner: dict[int, Any] = {}
@@ -731,8 +821,9 @@ class Engine:
         self.parsed: dict[str, Any] = {}
 
     def load_all(self) -> None:
-        for name in self.templates:
-            t = self.env.get_template(name)
+        for key in self.templates:
+            name = bare_name(key)
+            t = self.env.get_template(name, tag=key[: -len(name) - 1]) if key != name else self.env.get_template(name)
             self.parsed[name] = t
             _REIFY["tn"], _REIFY["tokens"] = name, self.tok_owner
             try:
@@ -741,7 +832,9 @@ class Engine:
                 _REIFY["tn"], _REIFY["tokens"] = None, None
 
     def main(self) -> Any:
-        return self.parsed["main"]
+        if self.root not in self.parsed:
+            self.parsed[self.root] = self.env.get_template(self.root)
+        return self.parsed[self.root]
 
 
 def _span(s: Any) -> tuple:
@@ -1138,6 +1231,8 @@ def c_node(n: tuple) -> str:
         return f"(NBlock {t} {C.cstr(n[2])} {C.cbool(n[3])} {N(n[4])})"
     if k == "NLiquid":
         return f"(NLiquid {t} {N(n[2])})"
+    if k == "NTablerow":
+        return f"(NTablerow {t} {c_expr(n[2])} {N(n[3])})"
     if k == "WBlock":
         return f"(WBlock {t} {NL(n[2])})"
     if k in ("WCond", "WMulti"):
@@ -1256,6 +1351,7 @@ def path_text(segs: list) -> str:
 
 def norm_path(text: str) -> str:
     t = re.sub(r"\s+", "", text)
+    t = re.sub(r"\.(\d+)(?![\w-])", r"[\1]", t)          # shorthand index a.0 == a[0]
     t = re.sub(r"\[\s*\"([^\"]*)\"\s*\]", r"['\1']", t)
     t = re.sub(r"\['([\u0080-￿a-zA-Z_][\u0080-￿a-zA-Z0-9_-]*)'\]", r".\1", t)
     return t
@@ -1266,7 +1362,7 @@ def span_findings(eng: Engine, a: dict[str, Any]) -> list[tuple[str, str, dict]]
     out: list[tuple[str, str, dict]] = []
 
     def src_of(tn: str) -> str | None:
-        return eng.templates.get(tn)
+        return eng.sources.get(tn)
 
     def bad(sig: str, what: str, tn: str, sp: tuple, item: str) -> None:
         out.append((sig, what, {"template": tn, "span": sp[1:], "item": item,
@@ -1282,7 +1378,11 @@ def span_findings(eng: Engine, a: dict[str, Any]) -> list[tuple[str, str, dict]]
                     continue
                 got = src[sp[1]:sp[2]] if 0 <= sp[1] <= sp[2] <= len(src) else None
                 if got is None or norm_path(got) != norm_path(want):
-                    if sp[2] == -1 and src[sp[1]:].startswith(want + ".."):
+                    ng, nw = norm_path(got or ""), norm_path(want)
+                    if got and nw.startswith(ng) and re.match(r"\[\d+\]", nw[len(ng):]) and re.match(r"\.\d", src[sp[2]:sp[2] + 2]):
+                        bad("span-shorthand-index-too-short",
+                            f"span of {want!r} stops before its shorthand index: it covers {got!r}", sp[0], sp, want)
+                    elif sp[2] == -1 and src[sp[1]:].startswith(want + ".."):
                         bad("span-path-stop-minus-one",
                             f"variable {want!r} in a range expression is reported with stop index -1", sp[0], sp, want)
                     else:
@@ -1399,6 +1499,8 @@ def binding_structure(eng: Engine) -> tuple[set[str], dict[str, set[str]]]:
             hard.add(n[2][0])
         elif k == "NFor":
             hard.update([n[2][1], "forloop"])
+        elif k == "NTablerow":
+            hard.update([n[2][1], "tablerowloop"])
         elif k == "NWith":
             hard.update(a for a, _ in n[2])
         elif k == "NMacro":
@@ -1485,6 +1587,98 @@ def scope_findings(eng: Engine, a: dict[str, Any], run: dict[str, Any]) -> list[
     return out
 
 
+def root_contexts(eng: Engine) -> dict[tuple[int, int], dict[str, Any]]:
+    """For every variable occurrence of the root template: the for-loops whose `else`
+    block it is in, and whether it is inside a macro body / a block tag body."""
+    out: dict[tuple[int, int], dict[str, Any]] = {}
+
+    def ex(x: Any, ctx: dict[str, Any]) -> None:
+        if isinstance(x, tuple):
+            if x and x[0] == "path" and len(x) == 4:
+                out[(x[1], x[2])] = ctx
+            for y in x:
+                ex(y, ctx)
+        elif isinstance(x, list):
+            for y in x:
+                ex(y, ctx)
+
+    def is_node(x: Any) -> bool:
+        return isinstance(x, tuple) and bool(x) and isinstance(x[0], str) and x[0][:1] in "NW" and len(x[0]) > 1
+
+    def nd(n: tuple, ctx: dict[str, Any]) -> None:
+        k = n[0]
+        for i, x in enumerate(n[1:], 1):
+            c = ctx
+            if k == "NFor" and i == 4:
+                c = {**ctx, "else_of": ctx["else_of"] | {n[2][1], "forloop"}}
+            elif k == "NMacro" and i == 4:
+                c = {**ctx, "macro": True}
+            elif k == "NBlock" and i == 4:
+                c = {**ctx, "block": True}
+            if is_node(x):
+                nd(x, c)
+            elif isinstance(x, list) and x and all(is_node(y) for y in x):
+                for y in x:
+                    nd(y, c)
+            else:
+                ex(x, c)
+
+    for n in eng.reified.get(eng.root, []):
+        nd(n, {"else_of": frozenset(), "macro": False, "block": False})
+    return out
+
+
+def assignable_names(eng: Engine) -> set[str]:
+    out: set[str] = set()
+
+    def walk(x: Any) -> None:
+        if isinstance(x, tuple):
+            if x and x[0] in ("NAssign", "NCapture", "NIncrement", "NDecrement"):
+                out.add(x[2][0])
+            for y in x:
+                walk(y)
+        elif isinstance(x, list):
+            for y in x:
+                walk(y)
+
+    walk(list(eng.reified.values()))
+    return out
+
+
+def occurrence_findings(eng: Engine, a: dict[str, Any], run: dict[str, Any]) -> list[tuple[str, str, dict]]:
+    """Per-occurrence reading of the globals clause, where it is decidable from
+    outside: an occurrence *in the root template* (analysed exactly once, in the
+    scope the render starts with) of a name that no assign/capture/increment
+    anywhere can bind. Whether such a name is bound is a matter of lexical
+    structure only, so when the render reads it from the global namespace the
+    analysis must list it as a global at that very location. The known ways in
+    which the static scope is coarser than the run-time scope get their own
+    signatures; anything else is reported as global-occurrence-unreported."""
+    out: list[tuple[str, str, dict]] = []
+    assignable = assignable_names(eng)
+    ctxs = root_contexts(eng)
+    glob_locs = {(k, sp) for k, vs in a["globals"] for _, sp in vs}
+    evs = run["events"]
+    for i, e in enumerate(evs):
+        if not (e[0] == "L" and i + 1 < len(evs) and evs[i + 1][:2] == ("G", e[1])):
+            continue
+        x, loc = e[1], eng.tok_owner.get(e[2])
+        if loc is None or loc[0] != eng.root or x in assignable or (x, loc) in glob_locs:
+            continue
+        ctx = ctxs.get((loc[1], loc[2]), {})
+        if x in ctx.get("else_of", ()):
+            sig, why = "for-else-sees-loop-variable", "it is in the else block of the for tag that binds it"
+        elif ctx.get("macro"):
+            sig, why = "macro-body-sees-definition-scope", "it is in a macro body, which renders in an isolated scope"
+        elif ctx.get("block"):
+            sig, why = "block-body-sees-definition-scope", "it is in a block body, which renders where the base template places the block"
+        else:
+            sig, why = "global-occurrence-unreported", "no known mechanism"
+        out.append((sig, f"{x!r} in template {loc[0]!r} at {loc[1]}..{loc[2]} was read from the global namespace but is not "
+                         f"reported as a global there ({why})", {"name": x, "location": loc}))
+    return out
+
+
 def bound_names(eng: Engine) -> set[str]:
     """Names bound anywhere in the program (by an independent walk of the reified trees)."""
     out: set[str] = set()
@@ -1506,6 +1700,8 @@ def bound_names(eng: Engine) -> set[str]:
         if k == "NFor":
             out.add(n[2][1])
             out.add("forloop")
+        if k == "NTablerow":
+            out.update([n[2][1], "tablerowloop"])
         if k == "NWith":
             out.update(a for a, _ in n[2])
         if k == "NMacro":
@@ -1544,6 +1740,12 @@ WITNESSES = [
     ("implicit-context-lookup", {"main": "{{ 'Hello' | t }}"}, {"z": 1}),
     ("implicit-context-lookup", {"main": "{% translate %}Hello{% endtranslate %}"}, {"z": 1}),
     ("implicit-context-lookup", {"main": "{{ 1 | money }}"}, {"z": 1}),
+    ("for-else-sees-loop-variable", {"main": "{% for x in l %}{{ x }}{% else %}{{ x }}{{ forloop }}{% endfor %}"}, {"l": [], "x": 1, "forloop": 2}),
+    ("macro-body-sees-definition-scope", {"main": "{% for x in l %}{% macro m %}{{ x }}{% endmacro %}{% call m %}{% endfor %}"}, {"l": [1], "x": 1}),
+    ("block-body-sees-definition-scope", {"main": "{% extends 'base' %}{% with x: 1 %}{% block b %}{{ x }}{% endblock %}{% endwith %}",
+                                          "base": "{% block b %}{% endblock %}"}, {"x": 1}),
+    ("seen-ignores-loader-tag", {"main": "{% include 'x' %}{% render 'x' %}", "include/x": "{{ inc }}", "render/x": "{{ ren }}"}, {"inc": 1, "ren": 2}),
+    ("span-shorthand-index-too-short", {"main": "{{ a.0 }}{{ a.b.1 }}", "__env__": "shorthand"}, {"a": [1]}),
     ("span-after-inline-comment", {"main": "ab{# c #}{% assign y = z %}"}, {}),
     ("span-after-inline-comment", {"main": "ab{% # c %}{% assign y = z %}"}, {}),
     ("span-after-inline-comment", {"main": "{% comment %}c{% endcomment %}{% assign y = z %}"}, {}),
@@ -1604,11 +1806,12 @@ def oracle_terms(dec: list[int]) -> str:
 
 def observe_witness(sig: str, templates: dict[str, str], data: dict[str, Any]) -> str | None:
     """Return a description if the recorded finding is still observable."""
-    eng = Engine(templates)
+    templates, root, env_kind = split_opts(templates)
+    eng = Engine(templates, root=root, env_kind=env_kind)
     try:
         eng.load_all()
     except Unsupported:
-        eng.parsed["main"] = eng.env.get_template("main")
+        eng.main()
     st = run_static(eng)
     if st["sync"][0] != "ok":
         return None
@@ -1626,9 +1829,16 @@ def observe_witness(sig: str, templates: dict[str, str], data: dict[str, Any]) -
             if e[0] == "G" and i and evs[i - 1][:2] == ("R", e[1]) and e[1] not in globs:
                 return f"{templates['main']!r} reads {e[1]!r} from the global namespace (RenderContext.resolve); not reported by analyze()"
         return None
-    for s, what, _ in usage_findings(eng, a, run, bound_names(eng)):
+    found = usage_findings(eng, a, run, bound_names(eng)) + occurrence_findings(eng, a, run)
+    if sig == "seen-ignores-loader-tag":
+        for s, what, info in found:
+            if s == "variable-unreported" and info.get("name") == "ren":
+                return (f"{templates[root]!r} with a loader that serves different templates for tag='include' and "
+                        f"tag='render': the second partial is skipped as already analysed; {what}")
+        return None
+    for s, what, _ in found:
         if s == sig:
-            return f"{templates['main']!r}: {what}"
+            return f"{templates[root]!r}: {what}"
     return None
 
 
@@ -1657,13 +1867,14 @@ def main(chk: C.Check, build: C.Build) -> None:
     stats = {"programs": 0, "unparsable": 0, "static_errors": 0, "renders": 0, "renders_completed": 0,
              "render_errors": {}, "events": 0, "lookups": 0, "global_lookups": 0, "filters": 0, "tags": 0,
              "decisions": 0, "with_partials": 0, "with_inheritance": 0, "tag_nodes": 0, "tag_nodes_rendered": 0,
-             "trace_cases": 0, "error_trace_cases": 0}
+             "trace_cases": 0, "error_trace_cases": 0, "hierarchical_root": 0, "tag_aware_loader": 0}
     nontrivial: set[str] = set()
     seen_programs: set[str] = set()
     samples: list[Any] = []
     for pi, (progs, renderable) in enumerate(programs):
         try:
-            eng = Engine(progs)
+            templates, root, env_kind = split_opts(progs)
+            eng = Engine(templates, root=root, env_kind=env_kind)
             eng.load_all()
         except Unsupported as e:
             chk.notes.append(f"generator produced an unsupported shape: {e}")
@@ -1676,8 +1887,11 @@ def main(chk: C.Check, build: C.Build) -> None:
             continue
         seen_programs.add(key)
         stats["programs"] += 1
-        stats["with_partials"] += any(k not in ("main", "base", "mid") for k in progs)
-        stats["with_inheritance"] += "base" in progs
+        stats["with_partials"] += any(k not in (root, "base", "mid") for k in templates)
+        stats["with_inheritance"] += "base" in templates
+        stats["hierarchical_root"] += root != "main"
+        stats["tag_aware_loader"] += any(bare_name(k) != k for k in templates)
+        stats["env_" + env_kind] = stats.get("env_" + env_kind, 0) + 1
         st_t = run_static(eng, True)
         st_f = run_static(eng, False)
         replay: dict[str, Any] = {"templates": progs}
@@ -1685,13 +1899,13 @@ def main(chk: C.Check, build: C.Build) -> None:
             if st["sync"] != st["async"]:
                 chk.finding("async-analysis-differs", "analyze_async() and analyze() return different results",
                             {**replay, "include_partials": inc, "sync": st["sync"], "async": st["async"]})
-        L = c_loader(eng)
-        parts = [f"chk_static L true {c_static_expected(st_t['sync'])} {c_static_expected(st_t['async'])}",
-                 f"chk_static L false {c_static_expected(st_f['sync'])} {c_static_expected(st_f['async'])}"]
+        L = c_loader(eng) + " in let R := " + C.cstr(eng.root)
+        parts = [f"chk_static L R true {c_static_expected(st_t['sync'])} {c_static_expected(st_t['async'])}",
+                 f"chk_static L R false {c_static_expected(st_f['sync'])} {c_static_expected(st_f['async'])}"]
         if st_t["sync"][0] != "ok":
             stats["static_errors"] += 1
             items.append({"case": f"(let L := {L} in {' && '.join(parts)})",
-                          "model": f"let L := {L} in match assoc main_s L with Some n => analyze (loader_of L) true run_fuel main_s n | None => OutOfFuel end",
+                          "model": f"let L := {L} in match assoc R L with Some n => analyze (loader_of L) true run_fuel R n | None => OutOfFuel end",
                           "replay": {**replay, "analyze": st_t["sync"]}})
             continue
         a = st_t["sync"][1]
@@ -1710,7 +1924,7 @@ def main(chk: C.Check, build: C.Build) -> None:
             chk.finding("helper-inconsistent", "variable_paths()/variable_segments() disagree with analyze()", replay)
         sl = lambda xs: C.clist([C.cstr(x) for x in xs], "str")  # noqa: E731
         sg = lambda xs: C.clist([c_segs(x) for x in xs], "(list segv)")  # noqa: E731
-        parts.append(f"chk_helpers L {sl(h['variables'][0])} {sl(h['global_variables'][0])} {sl(h['filter_names'][0])} "
+        parts.append(f"chk_helpers L R {sl(h['variables'][0])} {sl(h['global_variables'][0])} {sl(h['filter_names'][0])} "
                      f"{sl(h['tag_names'][0])} {sg(h['variable_segments'][0])} {sg(h['global_variable_segments'][0])}")
         # spans
         for sig, what, info in span_findings(eng, a):
@@ -1738,15 +1952,15 @@ def main(chk: C.Check, build: C.Build) -> None:
                 stats["tags"] += sum(e[0] == "T" for e in evs)
                 stats["decisions"] += len(run["decisions"])
                 rendered |= {e[3] for e in evs if e[0] == "T"}
-                for sig, what, info in usage_findings(eng, a, run, bn) + scope_findings(eng, a, run):
+                for sig, what, info in usage_findings(eng, a, run, bn) + scope_findings(eng, a, run) + occurrence_findings(eng, a, run):
                     chk.finding(sig, what, {**replay, "data": d, **info, "how": "harness/c11.py run_render + usage_findings/scope_findings"})
                 if run["status"] == "ok":
                     stats["renders_completed"] += 1
                     me = model_events(eng, evs) if len(model_t) < (4 if thorough else 3) else None
                     if me is not None:
                         stats["trace_cases"] += 1
-                        parts.append(f"chk_trace L (fun _ => []) {oracle_terms(run['decisions'])} {C.clist(me, 'event')}")
-                        model_t.append(f"model_trace L (fun _ => []) {oracle_terms(run['decisions'])}")
+                        parts.append(f"chk_trace L R (fun _ => []) {oracle_terms(run['decisions'])} {C.clist(me, 'event')}")
+                        model_t.append(f"model_trace L R (fun _ => []) {oracle_terms(run['decisions'])}")
                         replay.setdefault("renders", []).append({"data": d, "decisions": run["decisions"],
                                                                  "events": [e[:3] for e in evs]})
                 else:
@@ -1755,9 +1969,9 @@ def main(chk: C.Check, build: C.Build) -> None:
                         me = model_events(eng, evs)
                         if me is not None:
                             stats["error_trace_cases"] += 1
-                            parts.append(f"chk_trace_err L (fun _ => []) {oracle_terms(run['decisions'])} "
+                            parts.append(f"chk_trace_err L R (fun _ => []) {oracle_terms(run['decisions'])} "
                                          f"{C.clist(me, 'event')} {run['status']}")
-                            model_t.append(f"model_trace L (fun _ => []) {oracle_terms(run['decisions'])}")
+                            model_t.append(f"model_trace L R (fun _ => []) {oracle_terms(run['decisions'])}")
                             replay.setdefault("renders", []).append({"data": d, "decisions": run["decisions"],
                                                                      "status": run["status"]})
             if prog_events and len(rendered) >= 2:
@@ -1769,7 +1983,7 @@ def main(chk: C.Check, build: C.Build) -> None:
                             "filters": h["filter_names"][0], "tags": h["tag_names"][0]})
         mt = "(" + ", ".join(model_t[:2]) + ")" if len(model_t) > 1 else (model_t[0] if model_t else "tt")
         items.append({"case": f"(let L := {L} in {' && '.join(parts)})",
-                      "model": f"let L := {L} in (match assoc main_s L with Some n => analyze (loader_of L) true run_fuel main_s n | None => OutOfFuel end, {mt})",
+                      "model": f"let L := {L} in (match assoc R L with Some n => analyze (loader_of L) true run_fuel R n | None => OutOfFuel end, {mt})",
                       "replay": {**replay, "analyze": a}})
 
     # the implicit-context-lookup witness in the model: a filter that reads the context
@@ -1779,8 +1993,8 @@ def main(chk: C.Check, build: C.Build) -> None:
     me = model_events(eng, run["events"])
     if me is not None and run["status"] == "ok":
         reads = f"(fun f => if str_eqb f {C.cstr('t')} then [{C.cstr('translations')}] else [])"
-        items.append({"case": f"(let L := {c_loader(eng)} in chk_trace L {reads} {oracle_terms(run['decisions'])} {C.clist(me, 'event')})",
-                      "model": f"let L := {c_loader(eng)} in model_trace L {reads} {oracle_terms(run['decisions'])}",
+        items.append({"case": f"(let L := {c_loader(eng)} in let R := {C.cstr('main')} in chk_trace L R {reads} {oracle_terms(run['decisions'])} {C.clist(me, 'event')})",
+                      "model": f"let L := {c_loader(eng)} in let R := {C.cstr('main')} in model_trace L R {reads} {oracle_terms(run['decisions'])}",
                       "replay": {"templates": eng.templates, "events": run["events"]}})
 
     C.correspond(chk, "c11", IMPORTS, "", items, what="Analysis.analyze/analyze_async/helpers/run", shard=16 if not thorough else 40)
